@@ -157,3 +157,88 @@ pub fn replay_wide(c: &mut Collector, hue: &str, wty: &str, bits: &[u64]) {
         }
     }
 }
+
+// ---------------------------------------------------------------------------------------
+// whole-turn equality on SIMD lanes (angle/wide.rs AngleEq): x and x + 360 k are equal whenever the
+// shifted angle is exactly representable, x and x + d (d clearly more than rounding error, not a
+// multiple of 360) are unequal
+
+macro_rules! eq_fn {
+    ($fname:ident, $w:ident, $s:ident, $n:expr) => {
+        fn $fname(c: &mut Collector, xs: &[$s]) -> u64 {
+            use palette::angle::AngleEq;
+            let wty = stringify!($w);
+            let ks: [i64; 12] = [1, -1, 2, -2, 3, -3, 5, -5, 10, -11, 27, -100];
+            let mut n = 0u64;
+            // lanes: consecutive xs, all with the same k (so every lane holds another angle)
+            for start in 0..xs.len() {
+                let lane_x: Vec<$s> = (0..$n).map(|j| xs[(start + j) % xs.len()]).collect();
+                for &k in &ks {
+                    let shifted: Vec<f64> = lane_x.iter().map(|x| *x as f64 + 360.0 * k as f64).collect();
+                    // exactly representable in the component type?
+                    let exact: Vec<bool> = shifted.iter().map(|y| (*y as $s) as f64 == *y).collect();
+                    let mut a = [0 as $s; $n];
+                    let mut b = [0 as $s; $n];
+                    let mut d = [0 as $s; $n];
+                    for j in 0..$n {
+                        a[j] = lane_x[j];
+                        b[j] = shifted[j] as $s;
+                        d[j] = (lane_x[j] as f64 + 360.0 * k as f64 + 90.0) as $s;
+                    }
+                    let r = pv::catch(|| {
+                        let (va, vb, vd) = ($w::from(a), $w::from(b), $w::from(d));
+                        (va.angle_eq(&vb).to_array(), vb.angle_eq(&va).to_array(), va.angle_eq(&vd).to_array())
+                    });
+                    n += 3;
+                    let hexs = |v: &[$s]| v.iter().map(|x| hx(*x)).collect::<Vec<_>>();
+                    let mk = |what: &str, lane: usize, obs: Value, exp: Value| json!({"sub": "wide-eq", "ty": wty, "input": {"x": hexs(&a), "y": hexs(&b), "z": hexs(&d)}, "lane": lane, "k": k, "x": a[lane] as f64, "what": what, "observed": obs, "expected": exp});
+                    match r {
+                        Err(msg) => c.violation(&format!("C11/equal-whole-turns/{wty}::angle_eq/panic"), 1.0, || mk("panic", 0, json!(msg), json!("no panic"))),
+                        Ok((ab, ba, ad)) => {
+                            for j in 0..$n {
+                                let (e1, e2, ne) = (ab[j].to_bits() != 0, ba[j].to_bits() != 0, ad[j].to_bits() != 0);
+                                if exact[j] && !(e1 && e2) {
+                                    c.violation(&format!("C11/equal-whole-turns/{wty}::angle_eq/{}", if a[j] as f64 % 360.0 == 0.0 { "multiple-of-360" } else { "other" }), 1.0, || mk("x and x + 360 k (exactly representable) must be equal in this lane", j, json!({"x.angle_eq(y)": e1, "y.angle_eq(x)": e2, "y": b[j] as f64}), json!(true)));
+                                }
+                                if ne {
+                                    c.violation(&format!("C11/unequal-quarter-turn/{wty}::angle_eq"), 1.0, || mk("x and x + 360 k + 90 must be unequal in this lane", j, json!({"x.angle_eq(z)": ne, "z": d[j] as f64}), json!(false)));
+                                }
+                            }
+                        }
+                    }
+                }
+            }
+            n
+        }
+    };
+}
+eq_fn!(eq_f32x4, f32x4, f32, 4);
+eq_fn!(eq_f32x8, f32x8, f32, 8);
+eq_fn!(eq_f64x2, f64x2, f64, 2);
+eq_fn!(eq_f64x4, f64x4, f64, 4);
+
+pub fn wide_equality(ctx: &Ctx, total: &mut Collector) {
+    // integer angles incl. every multiple of 90 in +-3960, the seams, and odd values
+    let mut xs: Vec<i64> = (-44..=44).map(|k| k * 90).collect();
+    xs.extend([1, -1, 17, -163, 179, 181, -179, -181, 359, 361, 719, 12345, -98765]);
+    let hi = ctx.tier.pick(0, 2000);
+    xs.extend((0..hi).map(|i| i * 7 - 7000));
+    for wty in ["f32x4", "f32x8", "f64x2", "f64x4"] {
+        let sub = format!("wide-equality/{wty}");
+        if !ctx.wants(&sub) {
+            continue;
+        }
+        let mut c = Collector::new();
+        let x32: Vec<f32> = xs.iter().map(|x| *x as f32).collect();
+        let x64: Vec<f64> = xs.iter().map(|x| *x as f64).collect();
+        let n = match wty {
+            "f32x4" => eq_f32x4(&mut c, &x32),
+            "f32x8" => eq_f32x8(&mut c, &x32),
+            "f64x2" => eq_f64x2(&mut c, &x64),
+            _ => eq_f64x4(&mut c, &x64),
+        };
+        c.add(&sub, xs.len() as u64 * 12, n, n, xs.len() as u64 * 12);
+        c.exhaustive(&sub, true, &format!("{} integer angles (every multiple of 90 in +-3960, the seams, odd values) x 12 turn counts k, every cyclic window of N consecutive angles as lanes: AngleEq::angle_eq(x, x + 360 k) true in every lane where the shifted angle is exactly representable (both argument orders), angle_eq(x, x + 360 k + 90) false", xs.len()));
+        total.merge(c);
+    }
+}
